@@ -220,10 +220,26 @@ def variants(b, ptxns, r, n):
             if 4 <= x + dlt < len(b):
                 cand.add(x + dlt)
     cand = sorted(cand)
+    # records that later back pointers lead to: damage that covers their
+    # whole header (and more) while the pointing record stays intact
+    targets = sorted({rec.back for t in ptxns for rec in t.recs
+                      if getattr(rec, 'back', 0)})
     for _ in range(n):
         kind = r.choice(('trunc', 'trunc', 'zero', 'ff', 'rand', 'rand'))
         pos = r.choice(cand) if (cand and r.random() < 0.7) \
             else r.randrange(4, max(5, len(b)))
+        if targets and r.random() < 0.12:
+            kind = r.choice(('zero', 'zero', 'ff', 'rand'))
+            pos = r.choice(targets) - r.choice((0, 0, 3, 8))
+            ln = r.choice((42, 50, 64, 100))
+            ln = min(ln, len(b) - pos)
+            fill = {'zero': b'\0', 'ff': b'\xff'}.get(kind)
+            fill = fill * ln if fill else bytes(r.randrange(256)
+                                                for _ in range(ln))
+            if pos >= 4 and ln > 0 and fill != b[pos:pos + ln]:
+                out.append(('%s %d bytes at %d/%d' % (kind, ln, pos, len(b)),
+                            b[:pos] + fill + b[pos + ln:], pos, pos + ln))
+            continue
         if kind == 'trunc':
             out.append(('truncate at %d/%d' % (pos, len(b)), b[:pos], pos,
                         len(b)))
@@ -297,6 +313,14 @@ def run_recover(case):
                     data = b'?'
                 recs.append((rec.oid, data, spans))
             orig[t.tid] = (t, recs)
+        def n_of(damaged, tpos, oid):
+            """Records of `oid` the transaction at tpos holds in the
+            damaged file (record positions as in the original)."""
+            tt = [t for t in ptxns if t.pos == tpos]
+            if not tt:
+                return 0
+            return sum(1 for y in tt[0].recs
+                       if bytes(damaged[y.pos:y.pos + 8]) == oid)
         r = random.Random(ctx.subseed(case['seed'], 'damage'))
         vs = [('intact', b, len(b) + 1, len(b) + 1)] + \
             variants(b, ptxns, r, case['nvariants'])
@@ -449,8 +473,11 @@ def run_recover(case):
                         if any(a < dend and e > dstart for a, e in
                                into_multi.get((tid, x[0]), ())):
                             fam = '/pointer-into-damaged-multi-record-txn'
-                        elif any(a < dend and e > dstart for a, e in
+                        elif any(a < dend and e > dstart
+                                 and n_of(data, a, x[0]) >= 2 for a, e in
                                  into_any.get((tid, x[0]), ())):
+                            # (the damage gave that transaction a second
+                            # record of this object)
                             fam = '/pointer-into-damaged-txn'
                         viol.append(('recover-changes-transaction' + fam,
                                      '%s: record %r of %r changed'
